@@ -34,6 +34,18 @@ def items(ctx):
                          "psi": rng.choice([None, None, None, 1, [1, 0, 0, 0], [0, 0, 1, 0], [1, 1, 0, 0], [0, 1, 1, 0]]),
                          "maxit": rng.choice([1, 2, 5]), "dbait": rng.choice([1, 3]), "monitor": rng.random() < 0.7})
         out.append({"series": sers, "fits": fits, "matrix": rng.random() < 0.4})
+    # options that bind (window 1, penalty 2-3, per-series psi) on longer and multivariate series: an assignment
+    # helper that drops or mangles dists_options then picks a mean that is not nearest
+    for _ in range(80 if q else 1500):
+        nd = rng.choice([1, 2, 2])
+        n = rng.randint(4, 7)
+        L = rng.randint(4, 6)
+        sers = [[[rng.choice((0, 1, 2, 5, 9))] if nd == 1 else list(rng.choice(P2)) for _p in range(L)] for _s in range(n)]
+        fits = [{"k": rng.randint(2, 3), "seed": rng.randint(0, 10 ** 6), "init": rng.choice(["kmeans++", "random"]),
+                 "drop": None, "window": 1, "penalty": rng.choice([0, 2, 3]), "use_c": rng.random() < 0.7,
+                 "psi": rng.choice([None, None, [1, 0, 0, 0], [0, 0, 1, 0]]),
+                 "parallel": False, "maxit": rng.choice([1, 2, 5]), "dbait": rng.choice([1, 3]), "monitor": False}]
+        out.append({"series": sers, "fits": fits, "matrix": rng.random() < 0.4})
     # a few fits through the real multiprocessing pool
     for _ in range(3 if q else 20):
         n = rng.randint(4, 7)
